@@ -542,7 +542,7 @@ impl Ctx<'_> {
     fn new_float(&self, op: &Op, seq: u64) {
         let cname = class_name(op.which);
         let bits = float_data(op);
-        if op.datamode == 2 {
+        if op.datamode == 2 || op.datamode == 4 {
             self.w.stats.special_floats.fetch_add(1, Ordering::Relaxed);
         }
         let should_accept = op.geo[0] == op.geo[1] * op.geo[2];
